@@ -212,7 +212,7 @@ def run(prop, tier, which):
             mech_info = mechbind.merge_mech(work, V) + mechbind.select_candidates(work, V)
         if prop == 'C01':
             from .. import mechbind
-            mech_info = mechbind.add_mod(work, V) + mechbind.mod_push_pop(work, V)
+            mech_info = mechbind.add_mod(work, V) + mechbind.mod_push_pop(work, V) + mechbind.preprocess(work, V, tier)
         rc = V.finish(max_print=40)
         from collections import Counter
         srcs = Counter(c['src'].split(':')[0] for c in cases)
